@@ -98,7 +98,12 @@ def build_mn(spec):
     mn.add_nodes_from(spec["nodes"])
     for u, v in spec["edges"]:
         mn.add_edge(u, v)
-    mn.add_factors(*[build_factor(spec, f) for f in spec["factors"]])
+    fs = [build_factor(spec, f) for f in spec["factors"]]
+    # a tied potential: one and the same factor *object* registered twice (spec["same_object"] = [i, j] says that entry j
+    # of the factor list is the object of entry i; the list itself already contains both entries)
+    for i, j in spec.get("same_object", []):
+        fs[j] = fs[i]
+    mn.add_factors(*fs)
     return mn
 
 
